@@ -328,7 +328,12 @@ class CounterToken(Token, FileSystemEventHandler):
                         "Not reading token file [%f <= %f]", timestamp, self.timestamp
                     )
 
-                total = int(self.infopath.read_text())
+                try:
+                    total = int(self.infopath.read_text())
+                except ValueError:
+                    # Being rewritten by another process (truncated first): a
+                    # new modification event will follow
+                    return
                 delta = total - self.total
                 self.total = total
                 self.available += delta
